@@ -251,6 +251,56 @@ func isPow2(v *big.Int) (int, bool) {
 }
 
 // andConst computes x & c exactly in int mode for non-negative constant c (two's complement x).
+// ubound returns a syntactic exclusive upper bound of a non-negative integer term (nil if unknown):
+// constants, u mod c, sums and constant multiples / quotients of bounded terms.
+func ubound(t *Term) *big.Int {
+	if c, ok := iconst(t); ok {
+		if c.Sign() < 0 {
+			return nil
+		}
+		return new(big.Int).Add(c, big.NewInt(1))
+	}
+	switch t.Op {
+	case "mod":
+		if c, ok := iconst(t.Args[1]); ok && c.Sign() > 0 {
+			return c
+		}
+	case "+":
+		sum := big.NewInt(0)
+		for _, a := range t.Args {
+			b := ubound(a)
+			if b == nil {
+				return nil
+			}
+			sum.Add(sum, new(big.Int).Sub(b, big.NewInt(1)))
+		}
+		return sum.Add(sum, big.NewInt(1))
+	case "*":
+		if len(t.Args) == 2 {
+			if c, ok := iconst(t.Args[1]); ok && c.Sign() >= 0 {
+				if b := ubound(t.Args[0]); b != nil {
+					m := new(big.Int).Mul(new(big.Int).Sub(b, big.NewInt(1)), c)
+					return m.Add(m, big.NewInt(1))
+				}
+			}
+			if c, ok := iconst(t.Args[0]); ok && c.Sign() >= 0 {
+				if b := ubound(t.Args[1]); b != nil {
+					m := new(big.Int).Mul(new(big.Int).Sub(b, big.NewInt(1)), c)
+					return m.Add(m, big.NewInt(1))
+				}
+			}
+		}
+	case "div":
+		if c, ok := iconst(t.Args[1]); ok && c.Sign() > 0 {
+			if b := ubound(t.Args[0]); b != nil {
+				q := new(big.Int).Div(new(big.Int).Sub(b, big.NewInt(1)), c)
+				return q.Add(q, big.NewInt(1))
+			}
+		}
+	}
+	return nil
+}
+
 func andConst(x *Term, c *big.Int) *Term {
 	res := IntC(0)
 	n := c.BitLen()
@@ -352,11 +402,26 @@ func (a *Arith) BinOp(op token.Token, x, y *Term, t types.Type, yt types.Type) (
 		}
 		return a.rangeAssumed(App(fmt.Sprintf("and%d", w), SInt, x, y)), nil
 	case token.OR:
+		// x | c for an unsigned x of width w: the bits of x outside c, plus c (exact)
+		orConst := func(v *Term, c *big.Int) *Term {
+			if !signed && c.BitLen() <= w {
+				bits := w
+				if b := ubound(v); b != nil && b.Sign() > 0 {
+					if bl := new(big.Int).Sub(b, big.NewInt(1)).BitLen(); bl < bits {
+						bits = bl // v < 2^bl: no higher bits to keep
+					}
+				}
+				mask := new(big.Int).Sub(pow2(bits), big.NewInt(1))
+				rest := new(big.Int).AndNot(mask, c)
+				return IAdd(andConst(v, rest), IntBig(c))
+			}
+			return ISub(IAdd(v, IntBig(c)), andConst(v, c))
+		}
 		if c, ok := iconst(y); ok && c.Sign() >= 0 {
-			return ISub(IAdd(x, y), andConst(x, c)), nil
+			return orConst(x, c), nil
 		}
 		if c, ok := iconst(x); ok && c.Sign() >= 0 {
-			return ISub(IAdd(x, y), andConst(y, c)), nil
+			return orConst(y, c), nil
 		}
 		return App(fmt.Sprintf("or%d", w), SInt, x, y), nil
 	case token.XOR:
@@ -503,6 +568,9 @@ func (a *Arith) Convert(x *Term, from, to types.Type) *Term {
 	tlo, thi := typeRange(tb)
 	if flo.Cmp(tlo) >= 0 && fhi.Cmp(thi) <= 0 {
 		return x // value-preserving
+	}
+	if b := ubound(x); b != nil && new(big.Int).Sub(b, big.NewInt(1)).Cmp(thi) <= 0 && tlo.Sign() <= 0 {
+		return x // syntactically within the target range
 	}
 	if fw == tw {
 		return wrapInt(x, tb, true)
